@@ -405,7 +405,7 @@ def _part_b(case, ev):
         if {sigma[p] for p in getattr(g0.inputs, what)} != set(getattr(g1.inputs, what)):
             raise Violation("c06.alpha_inputs", f"{what}: original {getattr(g0.inputs, what)} renamed {getattr(g1.inputs, what)} sigma={sigma}")
     nbatches = max((len(v) for v in case["renames"].values()), default=0)
-    swaps = any(set(s["map"].values()) & set(s["map"].keys()) for v in case["renames"].values() for s in v)
+    swaps = any(set(s["map"].values()) & set(s["map"].keys()) for v in case["renames"].values() for s in v if "map" in s)
     ev.case(case, nbatches >= 2 and (swaps or any(sigma[k] in sigma and sigma[k] != k for k in sigma)), ["alpha_renaming"] + (["alpha_swaps"] if swaps else []))
 
 
